@@ -1,5 +1,5 @@
 import Lean.Data.Json
-import Bandit.Checks
+import Bandit.TestSet
 import Bandit.Gen.Chars
 import Bandit.Gen.Blacklists
 import Bandit.Gen.Registry
@@ -112,9 +112,17 @@ def opScan (j : Json) : Except String Json := do
   let isStdin := (j.getObjValAs? Bool "stdin").toOption.getD false
   let nm : NosecMap := if ignoreNosec then [] else
     comments.map fun (ln, t) => (ln, Nosec.parse Gen.charClasses Gen.registry t)
-  let keep : Str → Bool := match sel with
-    | some s => fun i => s.contains i
-    | none => fun _ => true
+  let strs (j : Json) (k : String) : List Str := match j.getObjVal? k with
+    | .ok (.arr a) => a.toList.filterMap fun x => x.getStr?.toOption.map String.toList
+    | _ => []
+  let univ : IdUniverse :=
+    { plugins := Gen.registry.plugins.map (·.1), builtin := Gen.registry.builtin,
+      blacklist := (Gen.registry.blacklist.map (·.1)).eraseDups }
+  let keep : Str → Bool := match j.getObjVal? "profile" with
+    | .ok pj => keepOf univ { incl := strs pj "include", excl := strs pj "exclude" }
+    | _ => match sel with
+      | some s => fun i => s.contains i
+      | none => fun _ => true
   let checks := testSet (effectiveCfg over) fname Gen.blTables keep
   let es := scanFile checks { root := tree, nosec := nm, lines := lines, isStdin := isStdin }
   return Json.mkObj [
